@@ -296,8 +296,18 @@ func cmdTamper(args []string) {
 	var problems []chain.Problem
 	applied := 0
 	ms := mutations()
-	for b := 0; b < *nblocks; b++ {
-		if b%2 == 1 {
+	for b := 0; b <= *nblocks; b++ {
+		// the last round tampers with an EMPTY block (no transaction, no inbound ETX, hence no receipt): its declared results
+		// (receipt hash, gas, roots ...) are checked exactly like those of a full block
+		empty := b == *nblocks
+		if empty {
+			for i := 0; i < 3; i++ { // drain the pool and the ETX queue
+				if _, err := r.MineOn(r.Blocks2Head(), mininet.Zone); err != nil {
+					giveUp("draining block", err)
+				}
+			}
+		}
+		if b%2 == 1 && !empty {
 			// let the dominant chains confirm the ETXs emitted so far, so that the next zone block has inbound
 			// ETXs to execute (coinbases of several blocks, conversions)
 			for _, ord := range []int{mininet.Region, mininet.Prime} {
@@ -307,7 +317,9 @@ func cmdTamper(args []string) {
 			}
 		}
 		parentID := r.Blocks2Head()
-		r.RandomContent(5)
+		if !empty {
+			r.RandomContent(5)
+		}
 		// the honest block is appended first (its effects are learnt from database scans), then rolled back, the
 		// mutants are offered on the parent, and finally the honest block becomes head again
 		id, err := r.MineOn(parentID, mininet.Zone)
